@@ -113,8 +113,13 @@ pub fn variants(pr: &Printed, focus_decl: usize, all_gaps_for_everything: bool) 
     v
 }
 
+/// one, two or three comment lines per gap (several consecutive comment tokens)
 pub fn comment_text(g: usize) -> String {
-    format!(" c{}", g)
+    match g % 4 {
+        1 => format!(" c{}\n d{}", g, g),
+        3 => format!(" c{}\n\n e{}", g, g),
+        _ => format!(" c{}", g),
+    }
 }
 
 pub fn run(tier: Tier) -> Report {
